@@ -4,11 +4,11 @@ import Model.PagingHist
 
     session.go  Query.Scan / Query.MapScan:  `iter := q.Iter(); if err := iter.checkErrAndNotFound(); err != nil
                 { return err }; iter.Scan(dest...) / iter.MapScan(m); return iter.Close()`
-                Iter.checkErrAndNotFound: `iter.err`, else `ErrNotFound` when `iter.numRows == 0` — the FIRST
-                PAGE's row count; whether the page carries has_more_pages is not looked at.
+                Iter.checkErrAndNotFound (as repaired for KF-C15-4, props/C15.fix-4.diff): first walk over empty
+                pages that say has_more_pages, then `iter.err`, else `ErrNotFound` when `iter.numRows == 0`.
                 Query.Exec: `q.Iter().Close()`.
     The one Iter.Scan that follows finds `pos 0 < numRows`, so it never switches pages, and its prefetch
-    trigger `pos >= next.pos` is false (`next.pos ≥ 1`): exactly the requests of the first fetch are sent.
+    trigger `pos >= next.pos` is false (`next.pos ≥ 1`): the requests sent are those up to the first non-empty page.
 -/
 namespace Paging.First
 open Paging Paging.Hist
@@ -24,15 +24,23 @@ structure Out where
   reqs : List Req
   deriving DecidableEq, Repr
 
-/-- Query.Scan / Query.MapScan -/
-def queryScan (pp : Nat → Nat) (script : List Reply) (q : Qry) : Out :=
-  let f := connExec pp script false q
-  match f.iter.err with
-  | some e => ⟨none, some (.fail e), f.reqs⟩
-  | none =>
-    match f.iter.rows with
-    | [] => ⟨none, some .notFound, f.reqs⟩          -- checkErrAndNotFound: numRows == 0
-    | r :: _ => ⟨some r, none, f.reqs⟩               -- iter.Scan: the row at pos 0; Close: nil
+/-- Query.Scan / Query.MapScan, with Iter.checkErrAndNotFound as repaired for KF-C15-4: `for iter.err == nil &&
+    iter.numRows == 0 && iter.next != nil { *iter = *iter.next.fetch() }` before the two tests — an empty page
+    that says has_more_pages is walked over (the page switch of Iter.Scan), so ErrNotFound means that the
+    RESULT has no row -/
+def queryScan (pp : Nat → Nat) : List Reply → Bool → Qry → Out
+  | [], c, q => ⟨none, some (.fail .exhausted), prep c q ++ [request q]⟩
+  | .unprepared :: rest, c, q =>
+    let o := queryScan pp rest false q
+    { o with reqs := prep c q ++ request q :: o.reqs }
+  | .fail f :: _, c, q => ⟨none, some (.fail f), prep c q ++ [request q]⟩
+  | .page rows st :: rest, c, q =>
+    match rows, (pageIter pp q rows st).next with
+    | r :: _, _ => ⟨some r, none, prep c q ++ [request q]⟩             -- iter.Scan: the row at pos 0; Close: nil
+    | [], none => ⟨none, some .notFound, prep c q ++ [request q]⟩      -- numRows == 0 and no next page
+    | [], some n =>
+      let o := queryScan pp rest true n.qry                           -- the loop: `*iter = *iter.next.fetch()`
+      { o with reqs := prep c q ++ request q :: o.reqs }
 
 /-- Query.Exec -/
 def queryExec (pp : Nat → Nat) (script : List Reply) (q : Qry) : Out :=
@@ -57,12 +65,5 @@ def execErr : List Reply → Option Fail
   | .page _ _ :: _ => none
 
 end Spec
-
-/-- the first page answers the question: it is not an EMPTY page that says has_more_pages (the condition under
-    which Query.Scan / MapScan do the documented thing on the unchanged code) -/
-def FirstPageDecides : List Reply → Prop
-  | .unprepared :: rest => FirstPageDecides rest
-  | .page [] (some _) :: _ => False
-  | _ => True
 
 end Paging.First
